@@ -325,6 +325,40 @@ pub fn check(info: &mut CaseInfo, case: &BlockCase) -> CheckResult {
             fail!("events-differ", "{} / {}: {} events, expected {}; document: {:?}", CONTEXTS[ctx], b.name(), got.len(), r.expected.len(), r.doc);
         }
     }
+    // presentation variants that must not change any event: CR LF and lone CR line breaks, and a
+    // tab instead of the blank after a document marker (root contexts)
+    let mut variants: Vec<(&str, String)> = vec![];
+    if !r.doc.contains('\r') {
+        variants.push(("crlf", r.doc.replace('\n', "\r\n")));
+        variants.push(("cr", r.doc.replace('\n', "\r")));
+    }
+    if ctx <= 1 && (r.doc.starts_with("--- ") || r.doc.contains("\n--- ")) {
+        let t = r.doc.replace("\n--- ", "\n---\t");
+        let t = if let Some(rest) = t.strip_prefix("--- ") { format!("---\t{rest}") } else { t };
+        variants.push(("tab-after-marker", t));
+    }
+    for (name, doc) in &variants {
+        for b in [Backend::Str, Backend::Buffered] {
+            let o = parse_with(b, doc);
+            if let Some(e) = &o.error {
+                fail!("variant-rejected", "{} / {} / {name}: {}; document: {:?}", CONTEXTS[ctx], b.name(), e.display, doc);
+            }
+            let got = o.evs();
+            let same = got.len() == r.expected.len()
+                && got.iter().zip(&r.expected).all(|(g, x)| {
+                    g == x || (!r.assert_value && matches!((g, x), (Ev::Scalar { style: a, .. }, Ev::Scalar { style: b, .. }) if a == b && matches!(a, ScalarStyle::Literal | ScalarStyle::Folded)))
+                });
+            if !same {
+                let at = (0..got.len().min(r.expected.len())).find(|i| got[*i] != r.expected[*i]).unwrap_or(got.len().min(r.expected.len()));
+                fail!("variant-differs", "{} / {} / {name}: event #{at}: got {:?}, expected {:?}; document: {:?}", CONTEXTS[ctx], b.name(), got.get(at).map(|e| e.short()), r.expected.get(at).map(|e| e.short()), doc);
+            }
+        }
+        info.class(match *name {
+            "crlf" => "variant:crlf",
+            "cr" => "variant:cr",
+            _ => "variant:tab-after-marker",
+        });
+    }
     let texts = case.lines.iter().filter(|l| matches!(l, Line::Text(_))).count();
     let blank_or_more = case.lines.iter().any(|l| matches!(l, Line::Empty(_)) || matches!(l, Line::Text(t) if more_indented(t)));
     if texts >= 2 || blank_or_more || case.chomp != 0 || case.explicit || case.eof != 0 {
@@ -443,7 +477,8 @@ impl Property for C05P {
          node or by end of input with three shapes (final break, none, a last line of spaces only). An exhaustive stream enumerates every \
          line list of <= 4 (quick) / <= 5 (thorough) lines over 6 line shapes x 2 styles x 3 chompings x 4 contexts x 3 end shapes. \
          Oracle: value function written from YAML 1.2.2 8.1 (chomping, literal, folded with more-indented and empty lines); whole event \
-         list asserted on StrInput, BufferedInput, TestInput<8>, TestInput<128>. Non-trivial = >= 2 content lines or a blank / \
+         list asserted on StrInput, BufferedInput, TestInput<8>, TestInput<128>; the same events are required of the CR LF and lone-CR \
+         versions of every document and, in the root contexts, of the version with a tab after each document marker. Non-trivial = >= 2 content lines or a blank / \
          more-indented line or non-clip chomping or explicit indicator or a missing final break; distinct by document text."
             .into()
     }
